@@ -204,6 +204,25 @@ def run(tier):
             agree += 1
             if len(samples) < 2 and first:
                 samples.append({"source": src, "caps": rec["caps"], "counts": rec["counts"], "first_exceeded": names[first - 1]})
+    # a long forward call cycle FAR below every default limit through the shipped binary: the analyses must run as usual
+    # (the warning about the unused variable is there, no resource-limit warning)
+    k = 270
+    # (each function reads its own script variable: the capture sets travel round the cycle)
+    cyc = "".join("make g%d get %d\n" % (i, i) for i in range(k)) + "make unused get 7\n" \
+        + "".join("do c%d(n) start\n if to say (n small pass 1) start return 0 end\n return c%d(n minus 1) add g%d minus g%d add 1\nend\n" % (i, (i + 1) % k, i, i) for i in range(k)) + "shout(c0(5))\n"
+    naija_dbg = common.build_naija()
+    with tempfile.TemporaryDirectory(prefix="c18c_", dir=os.path.join(common.VERIF, "work")) as td:
+        with open(os.path.join(td, "p.ns"), "w") as f:
+            f.write(cyc)
+        try:
+            pc = subprocess.run([naija_dbg, "p.ns"], cwd=td, capture_output=True, timeout=600)
+            plain = re.sub(r"\x1b\[[0-9;]*m", "", pc.stdout.decode(errors="replace"))
+            unused_msg = langcheck.info()["semantic"]["unused-variable"]
+            if pc.returncode != 0 or "warning[analysis]" in plain or unused_msg not in plain or "\n5\n" not in "\n" + plain:
+                v.finding("default:call-cycle-%d" % k, "a %d-function call cycle far below every default limit is not analysed as usual (exit %s, resource-limit warning: %s, unused-variable warning: %s)"
+                          % (k, pc.returncode, "warning[analysis]" in plain, unused_msg in plain), {"case": "call-cycle", "functions": k})
+        except subprocess.TimeoutExpired:
+            v.finding("default:call-cycle-%d:timeout" % k, "the shipped binary did not finish a %d-function call cycle within 10 minutes" % k, {"case": "call-cycle"})
     cov = {"states": states, "transitions": trans, "traces_validated_against_impl": agree, "programs": len(keep), "cap_vectors": len(t.records),
            "cap_vectors_agreeing": agree, "by_first_exceeded_metric": dict(by_first), "metric_names_from_implementation": names,
            "evaluations": len(t.records), "distinct_nontrivial": sum(n for k, n in by_first.items() if k != "none"),
